@@ -23,7 +23,7 @@ func (h *Handler6) StartHunt(addr packet.Addr) (packet.HuntStage, error) {
 	if addr.IP.Is6() && !addr.IP.IsLinkLocalUnicast() {
 		return packet.StageNoChange, nil
 	}
-	if len(addr.MAC) != packet.EthAddrLen { // nil, empty or short: there is no station to send to
+	if len(addr.MAC) != packet.EthAddrLen || !packet.IsUnicastMAC(addr.MAC) { // nil, empty or short: there is no station to send to; a group address is every station
 		return packet.StageNoChange, packet.ErrInvalidMAC
 	}
 	addr.MAC = packet.CopyMAC(addr.MAC) // the hunt list and the loop outlive the caller's buffer
